@@ -113,7 +113,7 @@ class Tools:
         if not os.path.exists(self.pegx):
             d = scratch('pegx-')
             shutil.copy(os.path.join(REPO, 'peg.peg.go'), d)
-            for f in ('dump', 'irx', 'pegx'):
+            for f in ('dump', 'irx', 'pegx', 'casex'):
                 shutil.copy(os.path.join(VERIF, 'harness', 'pegx', f + '.go.txt'), os.path.join(d, f + '.go'))
             with open(os.path.join(d, 'go.mod'), 'w') as fh:
                 fh.write('module pegx\ngo 1.25\nrequire github.com/pointlander/peg v0.0.0\n'
